@@ -88,6 +88,8 @@ structure Rule where
   redirectUnitId : Option String
   configurationLogUnitId : Option String
   targetHash : Option String
+  /-- `rule.configuration_reset_unit_id`: only feeds the unit trace (Model/UnitTrace.lean), for `reset` AND `stop` -/
+  configurationResetUnitId : Option String := none
 deriving DecidableEq, Repr, Inhabited
 
 /-- The fields of `http::Request` read by `from_route_rule`. -/
